@@ -153,9 +153,10 @@ Section Ops.
     match p, x with
     | Choices k cands _ _ _ _, PChoices cs =>
         let into := fun (cs0 : nat * sdna) => with_nth (fun s => cnt_space s false (snd cs0)) O cands (fst cs0) in
-        if k =? 1 then b2n (w_choice wh) + match cs with c :: _ => into c | [] => O end
+        let at_ := fun j => match nth_error cs j with Some c => into c | None => O end in
+        if k =? 1 then b2n (w_choice wh) + at_ O
         else b2n (w_choice wh && negb fold) +
-             fold_right (fun c acc => b2n (w_choice wh) + into c + acc) O (firstn k cs)
+             fold_right (fun j acc => b2n (w_choice wh) + at_ j + acc) O (seq 0 k)
     | FloatP _ _ _, PFloat _ => b2n (w_float wh)
     | CustomP _, PCustom _ => b2n (w_custom wh)
     | _, _ => O
